@@ -37,9 +37,38 @@ CLAIMED["C07"] = dict(
 )
 
 NOT_YET = {}
+# properties whose check exists but is not claimed yet (e.g. waiting for a fix commit or a review)
+HOLD = {"C08", "C09", "C10", "C13", "C18", "C19"}
+
+
+def from_notes():
+    """MANIFEST fields delivered by the builders: the last ```json block of notes/Cxx.md"""
+    import re
+
+    for pid in ALL:
+        f = VERIF / "notes" / f"{pid}.md"
+        if pid in CLAIMED or pid in HOLD or not f.exists():
+            continue
+        blocks = re.findall(r"```json\n(.*?)```", f.read_text(), flags=re.S)
+        for b in reversed(blocks):
+            try:
+                d = json.loads(b)
+            except Exception:
+                continue
+            if "text" in d and "technique" in d:
+                CLAIMED[pid] = dict(
+                    category=d.get("category", "proof") if d.get("category") in ("exploration", "fault_enumeration", "model_checking", "proof", "translation_validation", "other") else "proof",
+                    text=d["text"],
+                    design_ref=d.get("design_ref", f"DESIGN.md §0, §5 {pid}; notes/{pid}.md"),
+                    note=d.get("note", ""),
+                    technique=d["technique"],
+                    raw_note=True,
+                )
+                break
 
 
 def main():
+    from_notes()
     checks = []
     for pid in ALL:
         if pid not in CLAIMED:
@@ -54,7 +83,7 @@ def main():
                 "replay_cmd_template": f"./check {pid} --replay {{path}}",
                 "engine": "pgfdr-lean",
                 "level_claimed": {"category": c.get("category", "proof"), "text": c["text"], "design_ref": c["design_ref"]},
-                "level_note": NOTE_COMMON % pid + c["note"],
+                "level_note": c["note"] if c.get("raw_note") else NOTE_COMMON % pid + c["note"],
                 "technique": c["technique"],
             }
         )
